@@ -39,6 +39,8 @@ PLAN = {
     "thorough": {"shards": 16, "cases": 1600, "timeout_s": 3300, "min_evaluations": 9000,
                  "min_counters": {"child_results_compared": 400000}},
 }
+# Cleaner.clean_content documents: 1. redact (patterns), 2. filter (allow-list), 3. obfuscate: Hostname, IP, IPv6, Keyword, Mac, Password
+DOCUMENTED_ORDER = ["pattern", "allow_filter", "hostname", "ip", "ipv6", "keyword", "mac", "password"]
 COMPETE = ["srvq", "zzcorp", "lab.zz", "nodeq", "2.3", "230.230", "10.2", "aa:b", "ff", "password", "example", "host", "keyword",
            "e.com", "test", "q7", "S3c", "com", "0.1"]
 
@@ -298,6 +300,9 @@ def run_shard(ctx):
             if r["order"] != ref["order"]:
                 ctx.violation("obfuscators-applied-in-different-order-between-hash-seeds", {"PYTHONHASHSEED": [ref_seed, hs], "orders": [ref["order"], r["order"]]})
             if r["order"]:
+                idx_ = [DOCUMENTED_ORDER.index(x) for x in r["order"] if x in DOCUMENTED_ORDER]
+                if idx_ != sorted(idx_):
+                    ctx.violation("obfuscators-not-applied-in-the-documented-order", {"observed": r["order"], "documented": DOCUMENTED_ORDER})
                 ctx.count("application_orders_recorded")
                 ctx.seen("application_orders", tuple(r["order"]))
             for i, a in enumerate(r["order"]):
